@@ -14,6 +14,10 @@ pub enum Op {
     GenPriv(u8),
     NewPay(u8, u8),
     Clone(u8, u8),
+    /// dst.clone_from(&src) on two live instances of the same kind
+    CloneFrom(u8, u8),
+    /// PayloadKey stored at an odd address (field after a u8 in a boxed tuple; the type has alignment 1)
+    NewPayOdd(u8, u8),
     Drop(u8),
     Use(u8),
     PanicDrop(u8),
@@ -40,6 +44,7 @@ fn key_values(seed: u64) -> Vec<[u8; 32]> {
 enum Obj {
     Priv(Box<PrivateKey>),
     Pay(Box<PayloadKey>),
+    PayOdd(Box<(u8, PayloadKey)>),
 }
 
 impl Obj {
@@ -47,6 +52,7 @@ impl Obj {
         match self {
             Obj::Priv(k) => k.as_bytes(),
             Obj::Pay(k) => k.as_bytes(),
+            Obj::PayOdd(k) => k.1.as_bytes(),
         }
     }
     fn addr(&self) -> usize {
@@ -70,6 +76,17 @@ fn sim(prog: &[Op]) -> Option<[u8; SLOTS]> {
                     return None;
                 }
                 s[i as usize] = 2;
+            }
+            Op::NewPayOdd(i, _) => {
+                if s[i as usize] != 0 {
+                    return None;
+                }
+                s[i as usize] = 3;
+            }
+            Op::CloneFrom(a, b) => {
+                if a == b || s[a as usize] == 0 || s[a as usize] != s[b as usize] {
+                    return None;
+                }
             }
             Op::Clone(a, b) => {
                 if s[a as usize] == 0 || s[b as usize] != 0 {
@@ -99,11 +116,13 @@ fn all_ops(nvals: u8) -> Vec<Op> {
         for k in 0..nvals {
             v.push(Op::NewPriv(i, k));
             v.push(Op::NewPay(i, k));
+            v.push(Op::NewPayOdd(i, k));
         }
         v.push(Op::GenPriv(i));
         for j in 0..SLOTS as u8 {
             if i != j {
                 v.push(Op::Clone(i, j));
+                v.push(Op::CloneFrom(i, j));
             }
         }
         v.push(Op::Drop(i));
@@ -178,11 +197,53 @@ pub fn execute(seed: u64, prog: &[Op]) -> Result<Outcome, String> {
                 mon::watch_add(o.addr());
                 slots[i as usize] = Some((o, vals[k as usize].to_vec()));
             }
+            Op::NewPayOdd(i, k) => {
+                let o = Obj::PayOdd(Box::new((0xEE, PayloadKey::new(&vals[k as usize]))));
+                mon::watch_add(o.addr());
+                slots[i as usize] = Some((o, vals[k as usize].to_vec()));
+            }
+            Op::CloneFrom(a, b) => {
+                // a.clone_from(&b): the bytes a held before must not survive in released memory
+                let (src_bytes, same) = {
+                    let (src, exp) = slots[b as usize].as_ref().unwrap();
+                    let _ = src;
+                    (exp.clone(), a == b)
+                };
+                if same {
+                    continue;
+                }
+                let (mut dst, _old) = slots[a as usize].take().unwrap();
+                let old_addr = dst.addr();
+                let _ = mon::watch_events();
+                {
+                    let (src, _) = slots[b as usize].as_ref().unwrap();
+                    match (&mut dst, src) {
+                        (Obj::Priv(d), Obj::Priv(s2)) => (**d).clone_from(&**s2),
+                        (Obj::Pay(d), Obj::Pay(s2)) => (**d).clone_from(&**s2),
+                        (Obj::PayOdd(d), Obj::PayOdd(s2)) => d.1.clone_from(&s2.1),
+                        _ => return Err(ctx("clone_from between different kinds".into())),
+                    }
+                }
+                for e in mon::watch_events() {
+                    if e.addr == old_addr && e.bytes.iter().any(|&x| x != 0) {
+                        return Err(ctx(format!("clone_from released the destination's previous buffer with secret bytes intact: {}", hx(&e.bytes))));
+                    }
+                }
+                if dst.bytes() != &src_bytes[..] {
+                    return Err(ctx("after clone_from the destination does not hold the source's key".into()));
+                }
+                if dst.addr() != old_addr {
+                    mon::watch_remove(old_addr);
+                    mon::watch_add(dst.addr());
+                }
+                slots[a as usize] = Some((dst, src_bytes));
+            }
             Op::Clone(a, b) => {
                 let (src, exp) = slots[a as usize].as_ref().unwrap();
                 let c = match src {
                     Obj::Priv(k) => Obj::Priv(Box::new((**k).clone())),
                     Obj::Pay(k) => Obj::Pay(Box::new((**k).clone())),
+                    Obj::PayOdd(k) => Obj::PayOdd(Box::new((k.0, k.1.clone()))),
                 };
                 if c.bytes() != &exp[..] {
                     return Err(ctx("clone does not hold the key bytes".into()));
@@ -209,6 +270,7 @@ pub fn execute(seed: u64, prog: &[Op]) -> Result<Outcome, String> {
                         kestrel_crypto::noise_encrypt(k, &pk, &ids[2].public(), None, None, b"c20", &PayloadKey::new(&[7u8; 32])).map(|_| ()).map_err(|e| e.to_string())
                     }
                     Obj::Pay(k) => kestrel_crypto::noise_encrypt(&ids[0].private(), &ids[0].public(), &ids[2].public(), None, None, b"c20", k).map(|_| ()).map_err(|e| e.to_string()),
+                    Obj::PayOdd(k) => kestrel_crypto::noise_encrypt(&ids[0].private(), &ids[0].public(), &ids[2].public(), None, None, b"c20", &k.1).map(|_| ()).map_err(|e| e.to_string()),
                 });
                 match r {
                     Ok(Ok(())) => {}
@@ -306,7 +368,7 @@ fn parse_op(s: &str) -> Op {
 }
 
 pub fn run(rep: &'static Report) {
-    rep.set_rule("E-GRAPH over programs: breadth-first search (stateright) over all programs of <= 4 (quick) / 5 (thorough) operations on 3 slots from {PrivateKey::try_from, PrivateKey::generate, PayloadKey::new, clone, drop, drop during panic unwinding, pass to noise_encrypt} with two key values (one containing zero bytes); every program is executed from scratch on the real containers (boxed, so the secret bytes always live in a heap block) under an allocator that copies the watched 32 bytes at the moment their block is deallocated. distinct non-trivial = programs that drop at least one instance");
+    rep.set_rule("E-GRAPH over programs: breadth-first search (stateright) over all programs of <= 4 (quick) / 5 (thorough) operations on 3 slots from {PrivateKey::try_from, PrivateKey::generate, PayloadKey::new (8-aligned box and odd address), clone, clone_from, drop, drop during panic unwinding, pass to noise_encrypt} with two key values (one containing zero bytes); every program is executed from scratch on the real containers (boxed, so the secret bytes always live in a heap block) under an allocator that copies the watched 32 bytes at the moment their block is deallocated. distinct non-trivial = programs that drop at least one instance");
     rep.assume("copies left on the stack by moves and non-container temporaries are out of scope (the property is about the containers); erasure is observed as far as this build profile (release) performs it");
     let max_len = rep.tier.pick(4, 5);
     let ctx = Arc::new(PCtx { rep, seed: rep.seed, max_len, ops: all_ops(2), executed: AtomicU64::new(0), drops: AtomicU64::new(0), events: AtomicU64::new(0) });
